@@ -1,3 +1,6 @@
+import numpy as np
+
+
 class Expression:
     def __init__(self, begin_pos, end_pos):
         self.begin_pos = begin_pos
